@@ -23,10 +23,15 @@ def convert_timestamp_to_unix_nano(iso_timestamp: str) -> int:
     dt = datetime.fromisoformat(iso_timestamp.rstrip("Z")).replace(
         tzinfo=timezone.utc
     )
-    # Convert the datetime object to a Unix timestamp in seconds
-    unix_timestamp = dt.timestamp()
-    # Convert the Unix timestamp to nanoseconds
-    unix_nano = int(unix_timestamp * 1e9 + dt.microsecond * 1e3)
+    # Convert the datetime object to nanoseconds since the Unix epoch using
+    # integer arithmetic (a float timestamp already contains the microseconds
+    # and cannot hold nanosecond values exactly)
+    time_since_epoch = dt - datetime(1970, 1, 1, tzinfo=timezone.utc)
+    unix_nano = (
+        (time_since_epoch.days * 86400 + time_since_epoch.seconds)
+        * 1_000_000_000
+        + time_since_epoch.microseconds * 1_000
+    )
     return unix_nano
 
 
